@@ -74,15 +74,16 @@ inductive Outcome
   deriving DecidableEq, Repr
 
 structure Run where
-  /-- every file-system state the run passes through, in order (the first is the initial state) -/
-  states : List FS
+  /-- every file-system state the run passes through, in order (the first is the initial state); a function of
+  `Unit` so that running the model for its result does not build the (quadratically large) list -/
+  states : Unit → List FS
   final : FS
   outcome : Outcome
 
 /-- error path of `WriteFile`: the deferred `os.Remove(temp)` -/
-def cleanup (sc : Scenario) (tmp : Path) (states : List FS) (fs : FS) (op : Op) : Run :=
+def cleanup (sc : Scenario) (tmp : Path) (states : Unit → List FS) (fs : FS) (op : Op) : Run :=
   if sc.unlinkFails then { states := states, final := fs, outcome := .error op }
-  else { states := states ++ [FS.del fs tmp], final := FS.del fs tmp, outcome := .error op }
+  else { states := fun _ => states () ++ [FS.del fs tmp], final := FS.del fs tmp, outcome := .error op }
 
 /-- how many bytes of `new` reach the temp file -/
 def written (sc : Scenario) (new : Bytes) : Nat :=
@@ -91,16 +92,20 @@ def written (sc : Scenario) (new : Bytes) : Nat :=
     | none => new.length
     | some l => min l new.length
 
+/-- the states up to the end of `io.Copy`: initial, temp created, then the temp file growing byte by byte
+up to the `written sc new` bytes that reach it -/
+def copyStates (sc : Scenario) (tmp : Path) (new : Bytes) (fs0 : FS) : List FS :=
+  [fs0, FS.set fs0 tmp ⟨[], 0o600⟩] ++
+    (List.range (written sc new + 1)).map (fun j => FS.set fs0 tmp ⟨new.take j, 0o600⟩)
+
 /-- `atomic.WriteFile(target, new)`; `tmp` is the fresh name `TempFile` picked -/
 def writeFile (sc : Scenario) (tmp target : Path) (new : Bytes) (fs0 : FS) : Run :=
   -- TempFile
-  if sc.fault = some .createTemp then { states := [fs0], final := fs0, outcome := .error .createTemp } else
-  let fs1 := FS.set fs0 tmp ⟨[], 0o600⟩
-  -- io.Copy: the temp file grows byte by byte up to `k`
+  if sc.fault = some .createTemp then { states := fun _ => [fs0], final := fs0, outcome := .error .createTemp } else
+  -- io.Copy
   let k := written sc new
-  let growing := (List.range (k + 1)).map (fun j => FS.set fs0 tmp ⟨new.take j, 0o600⟩)
   let fs2 := FS.set fs0 tmp ⟨new.take k, 0o600⟩
-  let st2 := [fs0, fs1] ++ growing
+  let st2 : Unit → List FS := fun _ => copyStates sc tmp new fs0
   if k < new.length ∨ sc.fault = some .write then cleanup sc tmp st2 fs2 .write else
   if sc.fault = some .fsync then cleanup sc tmp st2 fs2 .fsync else
   if sc.fault = some .close then cleanup sc tmp st2 fs2 .close else
@@ -111,24 +116,24 @@ def writeFile (sc : Scenario) (tmp target : Path) (new : Bytes) (fs0 : FS) : Run
     -- no original file: keep 0600
     if sc.fault = some .rename then cleanup sc tmp st2 fs2 .rename else
     let fs4 := FS.set (FS.del fs2 tmp) target ⟨new, 0o600⟩
-    { states := st2 ++ [fs4], final := fs4, outcome := .ok }
+    { states := fun _ => st2 () ++ [fs4], final := fs4, outcome := .ok }
   | some old =>
     if sc.fault = some .statTemp then cleanup sc tmp st2 fs2 .statTemp else
     if sc.fault = some .chmod ∧ old.mode ≠ 0o600 then cleanup sc tmp st2 fs2 .chmod else
     let fs3 := FS.set fs2 tmp ⟨new, old.mode⟩
-    if sc.fault = some .rename then cleanup sc tmp (st2 ++ [fs3]) fs3 .rename else
+    if sc.fault = some .rename then cleanup sc tmp (fun _ => st2 () ++ [fs3]) fs3 .rename else
     let fs4 := FS.set (FS.del fs3 tmp) target ⟨new, old.mode⟩
-    { states := st2 ++ [fs3, fs4], final := fs4, outcome := .ok }
+    { states := fun _ => st2 () ++ [fs3, fs4], final := fs4, outcome := .ok }
 
 /-- `formatFile` / `infer -i` on one target: read, parse + render (`render = none`: parse error), write.
 `render` is the formatter resp. the inference + formatter; it is a parameter here (its model is C08's / C15's). -/
 def rewriteFile (render : Bytes → Option Bytes) (sc : Scenario) (tmp target : Path) (fs : FS) : Run :=
-  if sc.fault = some .read then { states := [fs], final := fs, outcome := .error .read } else
+  if sc.fault = some .read then { states := fun _ => [fs], final := fs, outcome := .error .read } else
   match FS.get fs target with
-  | none => { states := [fs], final := fs, outcome := .error .read }
+  | none => { states := fun _ => [fs], final := fs, outcome := .error .read }
   | some f =>
     match render f.content with
-    | none => { states := [fs], final := fs, outcome := .error .parse }
+    | none => { states := fun _ => [fs], final := fs, outcome := .error .parse }
     | some new => writeFile sc tmp target new fs
 
 structure Job where
